@@ -242,7 +242,7 @@ def run_dataset_cases(chk, n):
         df = pd.DataFrame([[r[c] for c in cols] for r in rows], columns=cols, dtype=int)
         dom = Domain(names, sizes)
         wt = None if w is None else np.array([float(x) for x in w])
-        mode = rng.choice(['vector', 'project', 'project', 'project1', 'project_empty', 'drop', 'project_twice'])
+        mode = rng.choice(['vector', 'project', 'project', 'project1', 'project_empty', 'drop', 'project_twice', 'project_again', 'project_again'])
         proj = [a for a in names if rng.random() < 0.6] or [names[0]]
         rng.shuffle(proj)
         if mode == 'project_empty':
@@ -265,6 +265,13 @@ def run_dataset_cases(chk, n):
                     dropped = [a for a in names if a not in proj]
                     proj = [a for a in names if a in proj]; m['proj'] = proj
                     P = D.drop(dropped)
+                elif mode == 'project_again':
+                    # earlier projections of the SAME object onto the same attributes in other orders (and onto other lists) must not influence this one
+                    for _ in range(rng.randint(1, 3)):
+                        other = list(proj) if rng.random() < 0.7 else [a for a in names if rng.random() < 0.5]
+                        rng.shuffle(other)
+                        D.project(rng.choice([list, tuple])(other)).datavector()
+                    P = D.project(rng.choice([list, tuple])(proj))
                 elif mode == 'project_twice':
                     mid = proj + [a for a in names if a not in proj and rng.random() < 0.5]
                     rng.shuffle(mid)
